@@ -1366,6 +1366,9 @@ type expr =
 | Hook of expr * expr list
 | Tpl1 of char list * expr * char list
 | Tpl2 of char list * expr * char list * expr * char list
+| OptMCall0 of expr * char list
+| OptMCall1 of expr * char list * expr
+| Guard of nat * expr * expr
 
 val is_triv : expr -> bool
 
